@@ -67,16 +67,14 @@ class Wire:
             def __init__(self) -> None:
                 super().__init__(TargetURI("tcp-lines://127.0.0.1:1"))
 
+            # reconnect() is NOT overridden: the production BaseTransport.reconnect (close + connect under the transport mutex) runs
             @classmethod
             async def connect(cls, target: Any, timeout: float | None = None) -> Any:
-                raise NotImplementedError
+                await wire.event("connect", None)
+                return wire.transport
 
             async def close(self) -> None:
-                pass
-
-            async def reconnect(self, timeout: float | None = None) -> Any:
-                await wire.event("reconnect", None)
-                return self
+                await wire.event("close", None)
 
             async def write(self, data: bytes, timeout: float | None = None, tags: Any = None) -> int:
                 await wire.event("write", bytes(data))
@@ -175,7 +173,7 @@ def build_case(rng: random.Random) -> dict[str, Any]:
             "reconnect_at": rng.choice([None, None, 0.05, 0.6, 1.5]), "yield_seed": rng.randrange(1 << 30), "mode": "client"}
     if rng.random() < 0.25:
         # the transport's own request() (write+read under the transport mutex), used by scanners that bypass the UDS client
-        case.update({"mode": "transport", "tp": None, "reconnect_at": None, "max_retry": 0})
+        case.update({"mode": "transport", "tp": None, "max_retry": 0})
         for c in callers:
             c["timeout"] = rng.choice([0.05, 0.2, 0.5, 1.0])
             c["calls"] = 1
@@ -242,7 +240,10 @@ async def run_history(case: dict[str, Any], cancel_at: int | None, cancel_idx: i
         await asyncio.sleep(at)
         hist.append(("call", "reconnector", None, loop.time()))
         try:
-            await ecu.reconnect()
+            if case.get("mode") == "transport":
+                await wire.transport.reconnect()
+            else:
+                await ecu.reconnect()
             hist.append(("return", "reconnector", ("ok", None), loop.time()))
         except Exception as e:
             hist.append(("return", "reconnector", ("exc", type(e).__name__), loop.time()))
@@ -309,10 +310,10 @@ def check_history(ctx: Any, case: dict[str, Any], out: dict[str, Any], cancel: t
                     ctx.reach("contention.during-retry")
                 if task == "reconnector":
                     ctx.reach("reconnect.contended")
-        elif kind in ("write", "read", "reconnect"):
+        elif kind in ("write", "read", "close", "connect"):
             owner = task
             if window_owner is None:
-                if kind == "write" or kind == "reconnect":
+                if kind in ("write", "close", "connect"):
                     window_owner = owner
                     pending_seen_in_window = False
                     retry_in_window = False
@@ -321,7 +322,7 @@ def check_history(ctx: Any, case: dict[str, Any], out: dict[str, Any], cancel: t
                     ctx.violation("exclusion/read-without-own-write", "a task reads from the transport outside an exchange of its own", {**w, "index": i})
                     return
             elif owner != window_owner:
-                ctx.violation(f"exclusion/foreign-{kind}-inside-exchange/{'tp-worker' if 'tp' in (owner, window_owner) or owner == 'tp-worker' or window_owner == 'tp-worker' else 'reconnector' if 'reconnector' in (owner, window_owner) else 'callers'}",
+                ctx.violation(f"exclusion/foreign-{'reconnect' if kind in ('close', 'connect') else kind}-inside-exchange/{'tp-worker' if 'tp' in (owner, window_owner) or owner == 'tp-worker' or window_owner == 'tp-worker' else 'reconnector' if 'reconnector' in (owner, window_owner) else 'callers'}",
                               f"{owner} performs a transport {kind} while {window_owner}'s exchange is still open", {**w, "index": i})
                 return
             if kind == "write":
@@ -372,9 +373,9 @@ def check_history(ctx: Any, case: dict[str, Any], out: dict[str, Any], cancel: t
         cur: str | None = None
         n = 0
         for kind, task, payload, t in hist:
-            if kind in ("write", "read", "reconnect"):
+            if kind in ("write", "read", "close", "connect"):
                 n += 1
-                if kind in ("write", "reconnect") and cur is None:
+                if kind in ("write", "close", "connect") and cur is None:
                     cur = task
                 if n == cancel[0]:
                     held = cur == tgt
@@ -408,7 +409,7 @@ def run(ctx: Any, params: dict[str, Any]) -> None:
             continue
         if i % 50 == 0:
             ctx.sample({"case": case, "events": len(out["hist"])})
-        nev = sum(1 for h in out["hist"] if h[0] in ("write", "read", "reconnect"))
+        nev = sum(1 for h in out["hist"] if h[0] in ("write", "read", "close", "connect"))
         ks = list(range(1, nev + 1))
         if params["cancel"] == "sample":
             ks = rng.sample(ks, min(len(ks), 4))
